@@ -2,10 +2,14 @@ package main
 
 import (
 	"fmt"
+	"html"
+	"io"
 	"net/http"
 	"net/http/httptest"
+	"sort"
 	"strconv"
 	"strings"
+	"sync"
 	"sync/atomic"
 
 	"gopkg.in/yaml.v2"
@@ -17,6 +21,41 @@ type target struct {
 	grpc   *c11lib.Server
 	hits   atomic.Int64
 	broken atomic.Bool
+
+	// script (mode=isolate): the X-Tok values served to the successive requests of a path containing "/tok", in order of
+	// arrival ("" = no X-Tok header at all); echoes: what the requests of a path containing "/echo" carried
+	mu     sync.Mutex
+	script []string
+	next   int
+	echoes []string
+}
+
+// tokAlphabet: the X-Tok response header outside mode=isolate is a prefix of it whose length changes from response to
+// response (3..13 characters): header-derived variables differ in length between the responses an instance — and its
+// neighbours — see
+const tokAlphabet = "AbCdEfGhIjKlMnOp"
+
+func (t *target) tokFor(hit int64, path string) (string, bool) {
+	if t.script != nil {
+		if !strings.Contains(path, "/tok") {
+			return "", false
+		}
+		t.mu.Lock()
+		defer t.mu.Unlock()
+		if t.next >= len(t.script) {
+			return "", false
+		}
+		v := t.script[t.next]
+		t.next++
+		return v, v != ""
+	}
+	return tokAlphabet[:3+int(hit*5%11)], true
+}
+
+func (t *target) echoList() []string {
+	t.mu.Lock()
+	defer t.mu.Unlock()
+	return append([]string(nil), t.echoes...)
 }
 
 // refuse: from now on no request is answered — the http target drops every connection without a response, the gRPC
@@ -65,7 +104,33 @@ func newTarget(kind string) (*target, string, error) {
 			}
 			panic(http.ErrAbortHandler)
 		}
-		t.hits.Add(1)
+		hit := t.hits.Add(1)
+		if tok, ok := t.tokFor(hit, r.URL.Path); ok {
+			w.Header().Set("X-Tok", tok)
+		}
+		if strings.Contains(r.URL.Path, "/echo") {
+			// what the instance made of the variables it extracted from ITS earlier responses
+			var hs []string
+			for k, v := range r.Header {
+				if strings.HasPrefix(k, "X-V-") {
+					hs = append(hs, strings.ToLower(strings.TrimPrefix(k, "X-V-"))+":"+c11lib.Enc(strings.Join(v, "&")))
+				}
+			}
+			sort.Strings(hs)
+			b, _ := io.ReadAll(r.Body)
+			t.mu.Lock()
+			t.echoes = append(t.echoes, strings.Join(hs, ",")+",body:"+c11lib.Enc(string(b)))
+			t.mu.Unlock()
+		}
+		if strings.Contains(r.URL.Path, "/html") {
+			w.Header().Set("Content-Type", "text/html")
+			title := "T" + strconv.FormatInt(hit%7, 10)
+			if raw := r.Header.Get("X-V-raw"); raw != "" {
+				title = "T-" + html.EscapeString(raw) // a function of the instance's own data
+			}
+			_, _ = w.Write([]byte("<html><head><title>" + title + "</title></head><body><p id=\"x\">px</p><a href=\"/l1\">one</a><a href=\"/l2\">two</a></body></html>"))
+			return
+		}
 		w.Header().Set("Content-Type", "application/json")
 		if strings.Contains(r.URL.Path, "e500") {
 			w.WriteHeader(http.StatusInternalServerError)
@@ -111,21 +176,47 @@ func httpScenarioFile() string {
 				"templater":    map[string]any{"type": "text"},
 				"postprocessors": []any{
 					map[string]any{"type": "var/jsonpath", "mapping": map[string]string{"token": "$.auth_key"}},
+					map[string]any{"type": "var/header", "mapping": headerMapping()},
+					map[string]any{"type": "assert/response", "headers": map[string]string{"Content-Type": "json"}, "body": []string{"auth_key"},
+						"status_code": 200, "size": map[string]any{"val": 5, "op": ">"}},
 				},
 			},
 			map[string]any{
-				"name": "r2", "method": "GET", "tag": "t2", "uri": "/b",
-				"headers":   map[string]string{"Authorization": "Bearer {{.request.r1.postprocessor.token}}", "X-Const": "c"},
+				"name": "r2", "method": "GET", "tag": "t2", "uri": "/b/html",
+				"headers":   map[string]string{"Authorization": "Bearer {{.request.r1.postprocessor.token}}", "X-Const": "c", "X-T": "{{.request.r1.postprocessor.tok}}"},
 				"templater": map[string]any{"type": "html"},
+				"postprocessors": []any{
+					map[string]any{"type": "var/xpath", "mapping": map[string]string{"title": "//title", "links": "//a/@href"}},
+				},
+			},
+			// a step whose headers are all constants (nothing to render) and that reads what the earlier steps extracted
+			map[string]any{
+				"name": "r3", "method": "POST", "tag": "t3", "uri": "/c",
+				"headers": map[string]string{"X-Const": "c", "X-Other": "o"},
+				"body":    `{"t":"{{.request.r1.postprocessor.tl}}","x":"{{.request.r2.postprocessor.title}}"}`,
 			},
 		},
 		"scenarios": []any{
-			map[string]any{"name": "s1", "weight": 1, "min_waiting_time": 0, "requests": []string{"r1", "r2"}},
-			map[string]any{"name": "s2", "weight": 1, "min_waiting_time": 0, "requests": []string{"r2", "r1"}},
+			map[string]any{"name": "s1", "weight": 1, "min_waiting_time": 0, "requests": []string{"r1", "r2", "r3"}},
+			map[string]any{"name": "s2", "weight": 1, "min_waiting_time": 0, "requests": []string{"r2", "r1", "r3"}},
 		},
 	}
 	b, _ := yaml.Marshal(cfg)
 	return c11lib.WriteFile(".yaml", string(b))
+}
+
+// headerMapping: a var/header postprocessor with every modifier and every way of giving substr its bounds (negative
+// start, omitted end, negative end, explicit bounds, bounds beyond the value), on a header whose length changes from
+// response to response
+func headerMapping() map[string]string {
+	return map[string]string{
+		"tok": "X-Tok|substr(-4)",
+		"tl":  "X-Tok|lower|substr(2)",
+		"tu":  "X-Tok|upper|substr(1,-1)|replace(B,x)",
+		"te":  "X-Tok|substr(1,3)",
+		"tb":  "X-Tok|substr(-20,40)",
+		"ct":  "Content-Type",
+	}
 }
 
 func grpcScenarioFile() string {
@@ -178,6 +269,8 @@ func grpcScenarioFile() string {
 //	post      the step's second postprocessor (assert/response status_code) rejects the normal response
 //	postbody  assert/response body pattern not found
 //	postjson  var/jsonpath path not found (http only)
+//	posthdr   var/header with an unknown modifier (http only)
+//	postxpath var/xpath with a path that does not compile (http only)
 //	tmpl      the step's template fails to execute
 //	pre       the step's preprocessor refers to an unknown variable source
 //	call      unknown gRPC method (grpc only)
@@ -216,7 +309,9 @@ func httpFaultScenarioFile(kv map[string]string) string {
 		names = append(names, name)
 		uri := "/s" + strconv.Itoa(i) + "/{{.request." + name + ".preprocessor.u.login}}"
 		mapping := map[string]string{"u": "source.users[next]"}
-		posts := []any{map[string]any{"type": "var/jsonpath", "mapping": map[string]string{"token": "$.auth_key"}}}
+		posts := []any{map[string]any{"type": "var/jsonpath", "mapping": map[string]string{"token": "$.auth_key"}},
+			map[string]any{"type": "var/header", "mapping": headerMapping()},
+			map[string]any{"type": "var/xpath", "mapping": map[string]string{"p": "//p"}}}
 		if i == failat {
 			switch fail {
 			case "status":
@@ -229,15 +324,25 @@ func httpFaultScenarioFile(kv map[string]string) string {
 				posts = append(posts, map[string]any{"type": "assert/response", "body": []string{"no-such-text"}})
 			case "postjson":
 				posts = append(posts, map[string]any{"type": "var/jsonpath", "mapping": map[string]string{"x": "$.no.such.key"}})
+			case "posthdr":
+				posts = append(posts, map[string]any{"type": "var/header", "mapping": map[string]string{"x": "X-Tok|nosuchmodifier(1)"}})
+			case "postxpath":
+				posts = append(posts, map[string]any{"type": "var/xpath", "mapping": map[string]string{"x": "//["}})
 			case "tmpl":
 				uri += "/{{index .source.global.g 99}}"
 			case "pre":
 				mapping["x"] = "source.nosuch[next]"
 			}
 		}
+		hdrs := map[string]string{"X-G": "{{.source.global.g}}", "X-Const": "c"}
+		if i > 1 {
+			// what the previous step extracted from its response's headers
+			prev := "r" + strconv.Itoa(i-1)
+			hdrs["X-T"] = "{{.request." + prev + ".postprocessor.tok}}-{{.request." + prev + ".postprocessor.tu}}"
+		}
 		reqs = append(reqs, map[string]any{
 			"name": name, "method": "GET", "tag": "t" + strconv.Itoa(i), "uri": uri,
-			"headers":        map[string]string{"X-G": "{{.source.global.g}}", "X-Const": "c"},
+			"headers":        hdrs,
 			"preprocessor":   map[string]any{"mapping": mapping},
 			"templater":      map[string]any{"type": "text"},
 			"postprocessors": posts,
@@ -350,7 +455,9 @@ func poolYAML(kind, addr string, kv map[string]string, n int, rps map[string]any
 	case "httpscen":
 		gun["type"] = "http/scenario"
 		ammo["type"] = "http/scenario"
-		if kv["steps"] != "" {
+		if kv["isolate"] != "" {
+			ammo["file"] = isolateScenarioFile(strings.Split(kv["isolate"], ";"))
+		} else if kv["steps"] != "" {
 			ammo["file"] = httpFaultScenarioFile(kv)
 		} else {
 			ammo["file"] = httpScenarioFile()
